@@ -4,7 +4,7 @@ base = /var/tmp/base (the /verif commit the workspace was copied from), theirs =
 Files only they changed are copied; files both changed go through `git merge-file`; conflicts are listed."""
 import sys, os, subprocess, filecmp, shutil
 n = sys.argv[1]; dry = "--dry" in sys.argv
-BASE, THEIRS, OURS = "/var/tmp/base", f"/var/tmp/w{n}/verif", os.environ.get("WS_OURS", "/verif")
+BASE, THEIRS, OURS = os.environ.get("WS_BASE", "/var/tmp/base"), f"/var/tmp/w{n}/verif", os.environ.get("WS_OURS", "/verif")
 SKIP_DIRS = {".git", ".cache", ".lake", "replays", "evidence", "__pycache__"}
 SKIP_FILES = {".git", "DESIGN.md", "MANIFEST.json", "Cargo.lock", "config.toml", "Cargo.toml", "known_findings.json"}
 def files(root):
